@@ -56,6 +56,14 @@ Proof. intros tt H. apply C01_undo_restores_docs_calcs_partial. apply EOps_laws.
      - any lossless doc action (as in stage 1) that keeps off the cells with a pending delta: it does not write, create
        or destroy a cell for which the summary holds a delta (SC1; `avoidb`, an over-approximation `touch` of the cells
        an action may affect) -- in particular any lossless doc action while nothing is pending (increment 2);
+     - BulkRemoveRecord, RemoveColumn (of a data column) and RemoveTable of cells WITH a pending delta (increment 4):
+       the undo of the removal puts the recalculated values back, and the flush inserts the restore of the value before
+       the recalculation at the FRONT of the undo list, under the original names; the start-document cells that are
+       left to these restores are collected (D: the removed cells followed backwards through the renames of the undo
+       list so far), and the class demands at the end (`fronts_okb`, computed from the final summary and the start
+       document) that every front-inserted restore writes values of the start document into existing cells of the start
+       document and that the collected cells are among them.  This is what fails for the known defect
+       C01_refuted_front_restore_written_cell (the bundle wrote the cell before the recalculation);
      - the per-column flush of doModifyColumn for a column that has no pending delta (a no-op on the lists);
      - the triple of doModifyColumn: ModifyColumn t c (any change of the column info, INCLUDING a change of type), the
        conversion delta Calc t c (optional), FlushCol t c -- one step of the invariant (increment 3).  Side conditions:
@@ -68,7 +76,11 @@ Proof. intros tt H. apply C01_undo_restores_docs_calcs_partial. apply EOps_laws.
    start document, reaches g (redo_ok).  Deltas travel with the renames exactly as LabelRenames moves the keys
    (dget_rencol, dget_rentab); a doc action that keeps off the pending cells is taken by the ghost too, and the REAL
    undo actions are shown to work from the ghost side because neither the action nor its undo actions move an untouched
-   cell (frame, undo_touch; Proofs/ActionLog_frame.v); for the
+   cell (frame, undo_touch; Proofs/ActionLog_frame.v); the undo invariant carries exception sets (tr_okE: cells that
+   differ before the replay are followed through the renames of the undo list, img_list), which is how the cells put
+   back with a recalculated value reach the start document; the flush is analysed for ANY summary (flush_all_gen,
+   Proofs/ActionLog_flush2.v: stored updates and appended restores are those of the pruned summary, the rest goes to the
+   front); for the
    doModifyColumn triple the ghost takes the ModifyColumn and the stored update of the flush, and the restore block,
    which the flush places BEFORE the ModifyColumn undo, is shown to put back exactly the cells the type round trip
    does not (block_one, a restore block with a tight exception set; Proofs/ActionLog_cells.v). *)
@@ -97,7 +109,7 @@ Theorem C01_stage3_steps : forall O (L : ValLaws O) s0 g D m m',
   (forall t old new, is_defunct new = false -> step O m (Doc O (RenameColumn O t old new)) = Ok m' -> exists g', gi O s0 g' D m') /\
   (forall old new, is_defunct new = false -> step O m (Doc O (RenameTable O old new)) = Ok m' -> exists g', gi O s0 g' D m') /\
   (forall a DN, is_rename O a = false ->
-             (forall t c r, touch O a t c r -> dget O (m_sum O m) t c r <> None -> is_rmrec O a = true) ->
+             (forall t c r, touch O a t c r -> dget O (m_sum O m) t c r <> None -> is_removal O a = true) ->
              (forall t c r, ~ lossy O a (m_doc O m) t c r) -> act_names_ok O a ->
              (forall t c r, img_list O (rev (m_undo O m))
                                      (fun t c r => pending O (m_sum O m) t c r /\ touch O a t c r) t c r -> inD DN t c r) ->
@@ -335,6 +347,26 @@ Example C01_remove_record_nonvacuous :
 Proof.
   split; [vm_compute; reflexivity|].
   eexists. eexists. eexists. split; [vm_compute; reflexivity|]. split; [reflexivity|]. split; vm_compute; reflexivity.
+Qed.
+
+(* The same with the whole table removed after the calc delta (and renamed before that): the delta becomes defunct, the
+   restore is inserted at the front under the ORIGINAL names. *)
+Definition ex10_events : list (event ZOps) :=
+  [ Doc ZOps (BulkUpdateRecord ZOps nT [1] [(nA, [11])]);
+    Calc ZOps nT nF [(1, (10, 11))];
+    Doc ZOps (RenameColumn ZOps nT nF [71]);
+    Doc ZOps (RenameTable ZOps nT [85]);
+    Doc ZOps (RemoveTable ZOps [85]) ].
+
+Example C01_remove_table_nonvacuous :
+  bundle_ok3 ZOps ex3_state ex10_events = true /\
+  exists s' out s'', run ZOps ex3_state ex10_events = Ok (s', out) /\ s' = [] /\
+                 hd_error (o_undo ZOps out) = Some (BulkUpdateRecord ZOps nT [1] [(nF, [10])]) /\
+                 replay_doc ZOps (rev (o_undo ZOps out)) s' = Ok s'' /\ view ZOps s'' = view ZOps ex3_state.
+Proof.
+  split; [vm_compute; reflexivity|].
+  eexists. eexists. eexists. split; [vm_compute; reflexivity|]. split; [reflexivity|]. split; [reflexivity|].
+  split; vm_compute; reflexivity.
 Qed.
 
 (* The triple of doModifyColumn on a concrete bundle: the type of the data column A changes (with the values of this
